@@ -23,7 +23,7 @@ EXPLANATION = (
     "and nothing else. C05.e (twin evaluations of one curve): the daily root expansion is the difference of the potential-depth curve "
     "at today's and yesterday's development time; the two evaluations receive the same sequence of definitions (after renaming the "
     "time variable) - in particular the restrictive-layer correction is applied to both or to neither - otherwise the difference is "
-    "negative and the roots shrink. C05.f: the stress multiplier of the harvest index reaches the adjusted index only through the limit 1 + dHI0/100 (must-pass-through; the cap on the product of the pre- and post-anthesis factors, not on one factor). NOT decided: canopy envelope, harvest-index monotonicity, root depth <= Zmax, degree-day range "
+    "negative and the roots shrink. C05.f: the stress multiplier of the harvest index reaches the adjusted index only through the limit 1 + dHI0/100 (must-pass-through; the cap on the product of the pre- and post-anthesis factors, not on one factor). C05.g: in the restrictive-layer correction the penetrability fraction multiplies potential depth (potential -> actual) and divides the crossed thickness (actual -> potential). NOT decided: canopy envelope, harvest-index monotonicity, root depth <= Zmax, degree-day range "
     "(numeric trajectories).")
 
 ZERO_COLS = ["dap", "gdd_cum", "z_root", "canopy_cover", "canopy_cover_ns", "biomass", "biomass_ns",
@@ -59,6 +59,7 @@ def run(chk, prog, tier):
     rule_d(chk, prog)
     rule_e(chk, prog)
     rule_f(chk, prog)
+    rule_g(chk, prog)
     chk.assume("A-1")
     chk.exhaustive = True
 
@@ -198,6 +199,59 @@ def rule_f(chk, prog):
                 chk.violation("C05.f", where, construct, f"the multiplier {M} reaches the adjusted harvest index without passing the limit 1 + dHI0/100: the "
                               "stress-adjusted index can exceed the reference by more than the crop's allowed maximum increase",
                               loc=hi.loc(da) if da is not None else hi.loc())
+
+
+def rule_g(chk, prog):
+    """C05.g (rooting depth <= Zmax on soils with restrictive layers - structural half): the restrictive-layer correction converts potential
+    depth to actual depth by multiplying with the layer's penetrability fraction (`adjusted + remaining * p`) and, when a layer is crossed,
+    takes the layer's actual thickness off the remaining potential by the inverse conversion (`remaining - thickness / p`). The two uses of
+    the fraction must be a multiplication and a division by the same fraction."""
+    fi = prog.find_func("_depth_with_restrictive_layers") if any(f.name == "_depth_with_restrictive_layers" for f in prog.funcs.values()) else prog.find_func("root_development")
+    chk.fn(fi.key)
+    where = f"{fi.module}:{fi.qualname}"
+    flow = flow_of(fi)
+    def frac_names():
+        # expressions denoting penetrability / 100, and locals bound to it
+        out = set()
+        for a in walk_no_nested(fi.node):
+            if isinstance(a, ast.Assign) and isinstance(a.targets[0], ast.Name) and any(isinstance(x, ast.Attribute) and x.attr == "Penetrability" for x in ast.walk(a.value)) \
+                    and isinstance(a.value, ast.BinOp) and isinstance(a.value.op, ast.Div):
+                out.add(a.targets[0].id)
+        return out
+    fr = frac_names()
+    def is_frac(e):
+        if isinstance(e, ast.Name) and e.id in fr:
+            return True
+        return isinstance(e, ast.BinOp) and isinstance(e.op, ast.Div) and any(isinstance(x, ast.Attribute) and x.attr == "Penetrability" for x in ast.walk(e.left)) \
+            and isinstance(e.right, ast.Constant) and e.right.value == 100
+    mults, divs, other = [], [], []
+    for a in walk_no_nested(fi.node):
+        if not isinstance(a, ast.Assign):
+            continue
+        for b in ast.walk(a.value):
+            if isinstance(b, ast.BinOp) and isinstance(b.op, (ast.Mult, ast.Div)):
+                if is_frac(b.right) and not is_frac(b):
+                    (mults if isinstance(b.op, ast.Mult) else divs).append((a, b))
+                elif isinstance(b.op, ast.Mult) and is_frac(b.left):
+                    mults.append((a, b))
+    chk.floor("C05.g", len(mults) + len(divs), 2, "uses of the penetrability fraction in the restrictive-layer correction")
+    # the remaining potential: the name multiplied by the fraction; its decrement must divide
+    rem = {norm(b.left if is_frac(b.right) else b.right) for _, b in mults}
+    for a, b in mults + divs:
+        tgt = a.targets[0].id if isinstance(a.targets[0], ast.Name) else norm(a.targets[0])
+        construct = norm(a)[:90]
+        if tgt in rem:
+            # update of the remaining potential: thickness / fraction
+            if isinstance(b.op, ast.Div):
+                chk.ok("C05.g", where, construct, "actual thickness converted to potential depth by dividing by the fraction")
+            else:
+                chk.violation("C05.g", where, construct, "the crossed layer's thickness is taken off the remaining potential depth multiplied by the penetrability "
+                              "fraction instead of divided by it: too much potential remains and the roots end below the maximum rooting depth", loc=fi.loc(a))
+        else:
+            if isinstance(b.op, ast.Mult):
+                chk.ok("C05.g", where, construct, "potential depth converted to actual depth by multiplying with the fraction")
+            else:
+                chk.violation("C05.g", where, construct, "potential depth is converted to actual depth by dividing by the penetrability fraction", loc=fi.loc(a))
 
 
 def rule_e(chk, prog):
